@@ -745,6 +745,21 @@ def _is_antijoin(sel):
                         if cols == {"epoch"} and tabs == {"evapotranspiration_staging", "grid_time"}:
                             return True
                 return False
+        # grid_time.epoch NOT IN (SELECT epoch FROM evapotranspiration_staging)
+        if e[0] == "inlist" and neg and e[1][0] == "col" and e[1][2] == "epoch" and len(e[2]) == 1 and e[2][0][0] == "subq" and "grid_time" in src.values():
+            sub = e[2][0][1]
+            if {x.table for x in sub.sources} == {"evapotranspiration_staging"} and len(sub.columns) == 1 and sub.columns[0][0][0] == "col" \
+                    and sub.columns[0][0][2] == "epoch" and sub.where is None:
+                return True
+            return False
+    # SELECT epoch FROM grid_time ... EXCEPT SELECT epoch FROM evapotranspiration_staging
+    if len(getattr(sel, "compound", [])) == 1 and sel.compound[0][0] == "EXCEPT" and "grid_time" in src.values():
+        sub = sel.compound[0][1]
+        def _epoch_only(q):
+            return len(q.columns) == 1 and q.columns[0][0][0] == "col" and q.columns[0][0][2] == "epoch"
+        if {x.table for x in sub.sources} == {"evapotranspiration_staging"} and _epoch_only(sub) and _epoch_only(sel) and sub.where is None:
+            return True
+        return False
     # LEFT JOIN ... WHERE es.epoch IS NULL
     for s in sel.sources:
         if s.join == "LEFT" and s.table == "evapotranspiration_staging":
